@@ -36,8 +36,9 @@ def infoStepB (b : List Nat) (consumed : Bool) (buf : List Nat) : Res InfoStep :
       else if h.mailbox.length - COE_HEADER_AND_LIST_TYPE_SIZE > rest.length then .err .internal
       else if buf.length + (rest.take (h.mailbox.length - COE_HEADER_AND_LIST_TYPE_SIZE)).length > INFO_BUF_CAP then
         .err .internal
+      else if h.incomplete && h.mailbox.length - COE_HEADER_AND_LIST_TYPE_SIZE == 0 then .err .internal
       else .ok (.frag (buf ++ rest.take (h.mailbox.length - COE_HEADER_AND_LIST_TYPE_SIZE)) h.incomplete)
-    else .ok .skip
+    else .err (.responseInvalid 0 0)
 
 theorem Pdu.trimFront_ok (p : Pdu) (ct : Nat) (hp : p.start + p.len ≤ p.frame.length) :
     (p.trimFront ct).start + (p.trimFront ct).len ≤ (p.trimFront ct).frame.length := by
